@@ -140,8 +140,10 @@ MODULES = [
         # { self.heap.push(entry); } }` becomes a loop over a Vec holding first_entry followed by the drained entries, in the same order (on an early
         # exit the remaining entries are dropped, as with drain); the entry is taken apart and rebuilt because Verus forbids `&mut` to a field of a
         # type carrying a type invariant
-        dict(name='R-chain-drain', pat='for mut entry in once(first_entry).chain(self.tmp_entries.drain(..)) {\n            if entry.cursor.move_on_next().map_err(Error::convert_merge_error)?.is_some() {\n                self.heap.push(entry);\n            }',
-             rep='let mut all_entries: Vec<Entry<R>> = Vec::new();\n        all_entries.push(first_entry);\n        all_entries.append(&mut self.tmp_entries);\n        for entry0 in all_entries {\n            let Entry { cursor: mut ecursor, source_index: eindex } = entry0;\n            if ecursor.move_on_next().map_err(Error::convert_merge_error)?.is_some() {\n                self.heap.push(Entry { cursor: ecursor, source_index: eindex });\n            }'),
+        dict(name='R-chain-drain', pat='for mut entry in once(first_entry).chain(self.tmp_entries.drain(..)) {',
+             rep='let mut all_entries: Vec<Entry<R>> = Vec::new();\n        all_entries.push(first_entry);\n        all_entries.append(&mut self.tmp_entries);\n        for entry0 in all_entries {\n            let Entry { cursor: mut ecursor, source_index: eindex } = entry0;'),
+        dict(name='R-field-split:cursor', kind='re', pat=r'\bentry\.cursor\.move_on_next\(\)', rep='ecursor.move_on_next()', count='+'),
+        dict(name='R-field-split:push', pat='self.heap.push(entry)', rep='self.heap.push(Entry { cursor: ecursor, source_index: eindex })', count='+'),
         dict(name='R-closure-pat:k', pat='.map(|(k, _)| k)', rep='.map(|e: (&[u8], &[u8])| -> (r: &[u8]) ensures r@ == e.0@ { e.0 })', count=2),
         dict(name='R-mutself', kind='mutself', fn='add', count=1),
     ]),
